@@ -5,16 +5,21 @@ UNITS = [
 ]
 # loops of the harness helpers (bytes of the constants, the 56-byte image); everything else - the pool's tree walks, gap lists,
 # the loops over the K constants - is bounded by the small global unwind
-LONG = ','.join(['memset.0:200', '_ZL10copy_bytesPhPKhj.0:18', '_ZL10keep_bytesR5EntryPKhm.0:34', '_ZL10part_equalRK5EntryS1_.0:34', '_ZL10same_bytesPKhS0_m.0:34',
+LONG = ','.join(['memset.0:200', 'memcmp.0:18', '_ZL10copy_bytesPhPKhj.0:18', '_ZL10keep_bytesR5EntryPKhm.0:34', '_ZL10part_equalRK5EntryS1_.0:34', '_ZL10same_bytesPKhS0_m.0:34',
+                 '_ZN6asmjit5v1_219ConstPool5resetEv.0:9', '_ZNK6asmjit5v1_219ConstPool4fillEPv.0:9', '_ZNK6asmjit5v1_219ConstPool4fillEPv.1:9', '_ZNK6asmjit5v1_219ConstPool4fillEPv.2:9', '_ZNK6asmjit5v1_219ConstPool4fillEPv.3:9', '_ZNK6asmjit5v1_219ConstPool4fillEPv.4:9',
+                 ] + ['_ZN6asmjit5v1_219ConstPool3addEPKvmNS0_3OutImEE.%d:8' % i for i in (1, 2, 3)] + ['_ZN6asmjit5v1_219ConstPool3addEPKvmNS0_3OutImEE.%d:6' % i for i in (22, 23, 24)] + [
                  '_ZL11check_imagePKhmPK5Entryj.0:58', '_ZL11check_imagePKhmPK5Entryj.1:58', '_ZL11fresh_bytesPh.0:18', '_ZL5paintPh.0:58'])
-B = '%d add(data, size) calls from the empty pool, size chosen symbolically from %s, 16 symbolic data bytes per call (later calls may repeat the first constant, its upper half or its bytes 4..7), then one repeated add and fill()'
+B = 'add sizes %s from the empty pool, 16 symbolic data bytes per add (a later add may repeat the first constant, its upper half or its bytes 4..7), then (sequences 1,4,2 / 1,8,1 / 2,65 / 0,3 only) fill() into a guarded 56-byte image'
 HARNESSES = [
-    Harness('pool', 'h_pool_small2', unwind=9, unwindset=LONG, bounds=B % (2, '{0,1,2,3,4,65}'), mem_gb=6, timeout=900),
-    Harness('pool', 'h_pool_small3', unwind=9, unwindset=LONG, bounds=B % (3, '{0,1,2,3,4,65}'), mem_gb=8, timeout=1800),
-    Harness('pool', 'h_pool_wide2', unwind=9, unwindset=LONG, bounds=B % (2, '{1,2,4,8,16}'), mem_gb=8, timeout=1800),
-    Harness('pool', 'h_pool_wide3', unwind=9, unwindset=LONG, tiers=('thorough',), bounds=B % (3, '{1,2,4,8,16}'), mem_gb=8, timeout=3600),
+    Harness('pool', 'h_pool_' + nm, unwind=5, unwindset=LONG + ''.join(',h_pool_%s.%d:%d' % (nm, i, 22 if i < 2 else 9) for i in range(24)), mem_gb=mem, timeout=to, tiers=tiers, bounds=B % nm.replace('_', ','))
+    for nm, mem, to, tiers in (('1_4_2', 6, 900, ('quick', 'thorough')), ('4_4', 6, 900, ('quick', 'thorough')), ('8_4', 8, 1800, ('thorough',)),
+                               ('2_65', 4, 600, ('quick', 'thorough')), ('0_3', 4, 600, ('quick', 'thorough')), ('1_4_1', 6, 900, ('quick', 'thorough')), ('1_8_1', 8, 1800, ('thorough',)), ('4_8_4', 8, 3600, ('thorough',)),
+                               ('4_4_4', 8, 3600, ('thorough',)), ('8_8', 8, 3600, ('thorough',)), ('16_8_4', 8, 3600, ('thorough',)), ('4_8', 8, 1800, ('thorough',)))
+] + [
+    Harness('pool', 'h_pool_8_lookup', unwind=5, unwindset=LONG + ''.join(',h_pool_8_lookup.%d:%d' % (i, 22 if i < 2 else 9) for i in range(24)), mem_gb=6, timeout=900,
+            bounds='one add of 8 symbolic bytes, then the pool\'s own lookup (Tree::get) for both 4-byte halves and for 4 arbitrary bytes'),
 ]
 EXPLANATION = 'bounded symbolic execution (CBMC) of the real ConstPool::add / fill compiled from /repo; offsets and the written image are compared with a list of the constants kept by the harness'
-OUTSIDE = ['constants of 32 and 64 bytes (a 64-byte constant registers 30 shared sub-constants: beyond the memory cap of one query)', 'more than 3 adds', 'pools that are not empty at the start']
+OUTSIDE = ['fill() of pools whose trees hold more than one node of a size class (tree walks through the tagged links exhaust the memory cap)', 'size sequences other than the ones listed per harness (sizes are constants per harness: with symbolic sizes the solver reaches no verdict)', 'constants of 32 and 64 bytes (a 64-byte constant registers 30 shared sub-constants: beyond the memory cap of one query)', 'more than 3 adds', 'pools that are not empty at the start']
 ASSUMPTIONS = ['Arena::_alloc_oneshot is a harness stub handing out one 56-byte object per request (the arena is checked by C18); allocation never fails (D3 / C15)',
                'memset is a byte loop for the solver']
